@@ -259,3 +259,16 @@ Example C01_with_digest_hypotheses_are_satisfiable :
   is_ok (fst exd_build) = true /\
   match fst exd_build with Ok r _ => N.of_nat (List.length (r_fields r)) = 8 | _ => False end.
 Proof. repeat split; vm_compute; reflexivity. Qed.
+
+(** through the per-record gzip container (item level: a whole member whose payload is the
+    serialized record; the compressed bytes are not modelled): the same record comes back *)
+Require Import Proofs.GzPolicyProofs.
+Theorem C01_gzip_member_round_trip :
+  forall uni_lower uni_upper time_ok ip_ok uri_ok wid_ok mime_dec H b32 b64 http_req_ok http_resp_ok o r bd pd csize rest,
+    valid_record field_table required_fields uni_lower uni_upper time_ok ip_ok uri_ok wid_ok mime_dec H b32 b64
+                 http_req_ok http_resp_ok o r bd pd ->
+    gres (unmarshal_gz field_table required_fields uni_lower uni_upper time_ok ip_ok uri_ok wid_ok mime_dec H b32 b64
+                       http_req_ok http_resp_ok o (GMember (marshal r) true csize :: rest))
+    = URec r None [] (mkst [] TEOF).
+Proof. intros. eapply gzip_member_round_trip; eassumption. Qed.
+Print Assumptions C01_gzip_member_round_trip.
